@@ -6,11 +6,13 @@
 (c) this check: the operation streams of the other layers (graph, declarations, registry, world, comparison, adaptation,
     declaration algebra, attributes) and a dedicated stream of odd-input API programs are executed with the accelerator and
     with PURE_PYTHON=1 and the two traces are compared DIRECTLY, line by line, including exception types and the behaviour
-    of subsequent operations."""
+    of subsequent operations.  The `life` stream (c10life.py) extends "subsequent behaviour" to object lifetimes: islands of API objects
+    are dropped and the fate of every object (weakref(), weak references, finalizers, dependents) is compared and judged by an oracle."""
 import re
 
 from .. import core, runner
 from . import c01, c02, c05, c12, c14, c15, c20, regcommon, worldcommon, c08, spectwin
+from . import c10life
 
 THEOREMS = ["ZI.Order.C12_twin", "ZI.Order.c_eq_py", "ZI.Adapt.C14_twin", "ZI.Adapt.callC_eq_callPy"] + spectwin.THEOREMS
 KNOWN = "eq-foreign-nonstr-name"
@@ -20,6 +22,8 @@ def streams(rnd, tier):
     big = tier == "thorough"
     k = 8 if big else 1
     out = []
+    # object lifetimes (weakref() / weak references / finalizers / dependents after an island of API objects is dropped); own generator state
+    out.append(("life", c10life.gen_lines(core.rng("C10", 1), tier), ()))
     out.append(("classes", [l for _ in range(60 * k) for l in c01.gen_script(rnd, tier)], ()))
     out.append(("graph", [l for _ in range(60 * k) for l in c02.gen_script(rnd, tier)[0]], ()) if hasattr(c02, "gen_script") else None)
     g = regcommon.Gen(rnd, tier, c08.PROFILE)
@@ -54,6 +58,8 @@ def check(tier):
                 {"c": "C", "py": "Python"}[m], layer, str(bad)[-300:]), observed="<no answer>", other=""))
             continue
         c_out, py_out = res
+        if layer == "life":
+            fails += c10life.failures(lines, c_out, py_out, chk)      # independent oracle; the direct comparison follows
         total += len(lines)
         chk.count("lines_" + layer, len(lines))
         for i in core.first_diffs(lines, c_out, py_out, limit=40):
@@ -115,6 +121,10 @@ def replay(path):
         if x != y:
             bad += 1
             print("%s\n   C : %s\n   py: %s" % (l, x[:400], y[:400]))
+    if layer == "life":
+        for f in c10life.failures(script, a, b, None):
+            bad += 1
+            print(f["message"] + "\n   answer: " + f["observed"][:400])
     if bad:
         print("VIOLATION property=C10 replay=%s" % path)
         return 1
